@@ -511,6 +511,7 @@ func ruleC10Last(p *Prog, a *Anchors, r *Report) {
 	}
 	// Super renders the parent definition on every call: its successful results are AsSafeValue of a buffer
 	// rendered in this very call (or of the empty constant at the base)
+	ruleC10SuperScope(p, r, super)
 	asSafe := p.Func("AsSafeValue")
 	for _, ret := range returnsOf(super) {
 		if len(ret.Results) < 2 {
@@ -531,6 +532,50 @@ func ruleC10Last(p *Prog, a *Anchors, r *Report) {
 		} else {
 			r.Bad(key, p.InstrPos(ret), "block.Super returns %s instead of rendering the parent definition now: a remembered rendering is wrong when the block runs again with other data (e.g. in a loop)", p.VN(arg))
 		}
+	}
+}
+
+// the scope Super renders in: the parent definition is rendered where {{ block.Super }} stands — in a child of the
+// context of the calling expression (the resolver hands it to a method whose first parameter is *ExecutionContext),
+// not in a context remembered when the block was entered (which lacks the variables of a for/with around the call)
+func ruleC10SuperScope(p *Prog, r *Report, super *ssa.Function) {
+	key := p.FuncName(super) + ":scope"
+	var ctxParam *ssa.Parameter
+	for _, pa := range super.Params {
+		if pt, ok := pa.Type().(*types.Pointer); ok {
+			if n, isN := pt.Elem().(*types.Named); isN && n.Obj().Name() == "ExecutionContext" {
+				ctxParam = pa
+			}
+		}
+	}
+	n := 0
+	for _, b := range super.Blocks {
+		for _, in := range b.Instrs {
+			c, ok := in.(*ssa.Call)
+			if !ok || c.Common().StaticCallee() == nil || c.Common().StaticCallee().Name() != "Execute" || len(c.Common().Args) < 2 {
+				continue
+			}
+			if recv := c.Common().StaticCallee().Signature.Recv(); recv == nil || structOf(recv.Type()) == nil || structOf(recv.Type()).Obj().Name() != "NodeWrapper" {
+				continue
+			}
+			n++
+			ctxArg := stripLoad(c.Common().Args[1])
+			okScope := false
+			if mk, isCall := ctxArg.(*ssa.Call); isCall && mk.Common().StaticCallee() != nil && mk.Common().StaticCallee().Name() == "NewChildExecutionContext" && ctxParam != nil {
+				okScope = stripLoad(mk.Common().Args[0]) == ssa.Value(ctxParam)
+			}
+			if ctxParam != nil && ctxArg == ssa.Value(ctxParam) {
+				okScope = true
+			}
+			if okScope {
+				r.OK(key, p.InstrPos(in), "the parent definition is rendered in (a child of) the calling expression's context")
+			} else {
+				r.Bad(key, p.InstrPos(in), "block.Super renders the parent definition in %s, not in the context of the expression that calls it: inside {%% for i in l %%}{{ block.Super }}{%% endfor %%} the parent definition does not see i", p.VN(c.Common().Args[1]))
+			}
+		}
+	}
+	if n == 0 {
+		r.Unk(key, p.Pos(super.Pos()), "block.Super executes no NodeWrapper")
 	}
 }
 
